@@ -237,12 +237,17 @@ Definition fix_unique (R : registry) (b : str) (idn : str -> ident) : fu_result 
   fix_unique_fuel (S (List.length R)) R b idn.
 
 (* one request against the registry: new file content and the final calculation name *)
-Definition reg_step (R : registry) (r : request) : registry * str :=
-  match fix_unique R (base_name r) (idf r) with
+(* b is the name the executor object carries when generate_input runs: the freshly built
+   f"{name}_{method}" for a new Calculation, or the FINAL name of an earlier run when an existing
+   Calculation object (or a .copy() of it) is changed and run again — _fix_unique starts from
+   self.name (executors.py:312) *)
+Definition reg_step_from (R : registry) (b : str) (r : request) : registry * str :=
+  match fix_unique R b (idf r) with
   | FU nm true => (R ++ [(nm, idf r nm)], nm)
   | FU nm false => (R, nm)
-  | FUOutOfFuel => (R, base_name r)        (* dead: Props.fix_unique_terminates *)
+  | FUOutOfFuel => (R, b)                  (* dead: Props.fix_unique_terminates *)
   end.
+Definition reg_step (R : registry) (r : request) : registry * str := reg_step_from R (base_name r) r.
 Fixpoint reg_run (R : registry) (h : list request) : registry * list str :=
   match h with
   | [] => (R, [])
@@ -289,8 +294,12 @@ Definition fs_remove_all (nms : list str) (fs : fsys) : fsys := fold_left (fun f
 (* ------------------------------------------------------------------ one calculation, end to end *)
 Inductive outcome := ONormal | OAbnormal | ONoOutput.     (* what the scripted external program does IF it is invoked *)
 Inductive cmode := CNone | CAuto | CForce | CEverything.  (* keep files | keep_input_files=False | clean_up(force) | clean_up(force, everything) *)
-Record op := mkOp { o_req : request; o_out : outcome; o_cm : cmode;
-                    o_aux : list str }.                    (* additional input files the wrapper declares (oracle) *)
+Record op := mkOp { o_req : request;                       (* the CURRENT fields of the calculation object *)
+                    o_out : outcome; o_cm : cmode;
+                    o_aux : list str;                      (* additional input files the wrapper declares (oracle) *)
+                    o_start : option str }.                (* Some b: a re-used / copied Calculation object that
+                                                              already carries calculation name b; None: new object *)
+Definition op_start (o : op) : str := match o_start o with Some b => b | None => base_name (o_req o) end.
 Record obs := mkObs { ob_name : str; ob_invoked : bool;
                       ob_energy : option request;          (* whose output the parsed energy comes from *)
                       ob_raised : bool }.
@@ -328,8 +337,8 @@ Definition stage_cleanup (cm : cmode) (reached : bool) (N : str) (inputs : list 
 Definition exec_op (st : state) (o : op) : state * obs :=
   let r := o_req o in
   let m := rq_method r in
-  let R1 := fst (reg_step (st_reg st) r) in                                   (* generate_input: _fix_unique *)
-  let N := snd (reg_step (st_reg st) r) in
+  let R1 := fst (reg_step_from (st_reg st) (op_start o) r) in                  (* generate_input: _fix_unique *)
+  let N := snd (reg_step_from (st_reg st) (op_start o) r) in
   let outF := N ++ out_ext m in
   let inputs := (N ++ in_ext m) :: o_aux o in
   let fs1 := stage_inputs N inputs (st_fs st) in
